@@ -119,6 +119,33 @@ theorem encode_never_wrong (h : SafePrimeGroup P) (m e : ℕ) (he : Nat'.encode 
     m < P.q - 1 ∧ Nat'.decode P e = m :=
   ⟨(encode_ok_iff P h m).1 ⟨e, he⟩, decode_encode P h m e he⟩
 
+/-! ### the image of `encode` (added later: the map is invertible from the group side too) -/
+
+/-- every canonical member of the group, except the single member that decodes to `q - 1` (it is
+    `q` or `q + 1`), is the encoding of its own decoding: `encode ∘ decode = id` there.  Together
+    with `decode_encode` this makes `encode` a bijection between the plaintext space `[0, q-1)`
+    and the `q - 1` members other than that one. -/
+theorem encode_decode (h : SafePrimeGroup P) (hq : P.q % 2 = 1) (e : ℕ) (h1 : 1 ≤ e)
+    (hlt : e < P.p) (hv : natValid P e) (hne : e ≠ P.q) (hne' : e ≠ P.q + 1) :
+    Nat'.encode P (Nat'.decode P e) = some e :=
+  encode_decode_of_member P h hq e h1 hlt hv hne hne'
+
+/-- the exceptional member decodes to a value OUTSIDE the plaintext space; re-encoding it is
+    refused (an error, not a wrong element) -/
+theorem encode_decode_exceptional (h : SafePrimeGroup P) (e : ℕ) (he : e = P.q ∨ e = P.q + 1) :
+    Nat'.decode P e = P.q - 1 ∧ Nat'.encode P (Nat'.decode P e) = none := by
+  refine ⟨?_, Strand.encode_decode_exceptional P h e he⟩
+  have hp := h.p_eq
+  have hq2 : 2 ≤ P.q := h.q_prime.two_le
+  unfold Nat'.decode
+  rcases he with rfl | rfl
+  · rw [if_neg (by omega)]
+  · rw [if_pos (by omega)]; omega
+
+/-- non-vacuity on (23, 11, 2): 13 is a member above `q + 1`, 12 is the exceptional member -/
+example : natValid ⟨23, 11, 2, 2⟩ 13 ∧ Nat'.encode ⟨23, 11, 2, 2⟩ (Nat'.decode ⟨23, 11, 2, 2⟩ 13) = some 13 ∧
+    natValid ⟨23, 11, 2, 2⟩ 12 ∧ Nat'.decode ⟨23, 11, 2, 2⟩ 12 = 10 := by decide
+
 /-! ### random plaintexts -/
 
 /-- `rnd_plaintext` draws uniformly below this bound (num-bigint: `gen_biguint_below(q-1)`;
